@@ -80,6 +80,7 @@ func TestVX_C15Cold(t *testing.T) {
 	}
 	r := vx.Begin("C15", "cold-start", "each point operation (Double of a decoded point / of a fresh point / of the generator, Add, Negate, SetBytes+Bytes, SetBytes of an off-curve encoding, ScalarBaseMult, ScalarMult, ScalarMixedMult_Unsafe, GetAffineX of infinity) as the FIRST use of package sm2/internal in a fresh process, alone and by 8 goroutines released together in 10 (thorough 40) fresh processes; oracle sm2ref")
 	defer r.End()
+	defer implSeamReport(r)
 	procs := 10
 	if vx.Thorough() {
 		procs = 40
